@@ -130,10 +130,10 @@ Section Reg.
     exists o, In o (plan_task hdd fl st t) /\ registering o.
   Proof.
     plan_crush fl hdd st t; intro H; try (specialize (H eq_refl); discriminate);
-      first [exists (OReg t); split; [cbn; auto 6|exact I]
-            |exists (OPred t ITest); split; [cbn; auto 6|exact I]
-            |exists (OPred t ITrain); split; [cbn; auto 6|exact I]
-            |exists (OSave t); split; [cbn; auto 6|exact I]].
+      first [solve [exists (OReg t); split; [cbn; auto 6|exact I]]
+            |solve [exists (OPred t ITest); split; [cbn; auto 6|exact I]]
+            |solve [exists (OPred t ITrain); split; [cbn; auto 6|exact I]]
+            |solve [exists (OSave t); split; [cbn; auto 6|exact I]]].
   Qed.
 
   Lemma run_tasks_reg hdd fl fail : (ow_fit fl = true -> save_fit fl = true) -> forall l c c' ev s,
@@ -193,12 +193,12 @@ Section Reg.
     destruct Hs as [[_ [-> ->]]|[[Hs _]|[Hs _]]]; try discriminate.
     destruct (run_tasks_reg hdd fl None (proj1 Hleg) _ _ _ _ _ E) as [A [[B1 B2] C]].
     destruct (run_tasks_safe fitf predf _ _ _ _ _ _ _ _ E) as [Hm _].
-    cbn [cstore fst] in A, B1, B2, Hm. specialize (C eq_refl). split; [reflexivity|].
+    unfold cstore in *. cbn [fst] in A, B1, B2, Hm. specialize (C eq_refl). split; [reflexivity|].
     set (s1 := fst (fst c)) in *.
     assert (Hsave : names_le s1 (save hdd s1)).
-    { unfold save. destruct hdd; [|apply names_le_refl]. destruct (master s1) as [[ms md]|].
-      - split; intros x Hx; cbn; apply merge_names_in; left; exact Hx.
-      - apply names_le_refl. }
+    { unfold save. destruct hdd; [|apply names_le_refl].
+      destruct (master s1) as [[ms md]|]; split; intros x Hx; cbn;
+        try (apply merge_names_in; left); exact Hx. }
     split; [intros t Hin; apply (reg_has_le s1 _ t Hsave), C, Hin|]. split; [|split].
     - intros ->. unfold save. destruct (master s1) as [[ms md]|]; cbn; eexists; eexists;
         (split; [reflexivity|split; intro; reflexivity]).
